@@ -1,12 +1,54 @@
 package main
 
 import (
+	"encoding/json"
+	"flag"
+	"fmt"
 	"os"
+	"strings"
+	"time"
 	_ "time/tzdata"
 )
+
+// base of the modelled three days: Oct 30, Oct 31, Nov 1 2023 (UTC); tick = 30 minutes
+var baseNs = time.Date(2023, 10, 30, 0, 0, 0, 0, time.UTC).UnixNano()
+
+const tickNs = int64(1800e9)
+
+func fatal(f string, a ...any) {
+	fmt.Fprintf(os.Stderr, "c13: "+f+"\n", a...)
+	os.Exit(2)
+}
+
+func writeJSON(path string, v any) {
+	b, err := json.MarshalIndent(v, "", " ")
+	if err != nil {
+		fatal("marshal: %v", err)
+	}
+	if err := os.WriteFile(path, b, 0o644); err != nil {
+		fatal("write %s: %v", path, err)
+	}
+}
 
 func main() {
 	if len(os.Args) > 1 && os.Args[1] == "explore" {
 		explore()
+	}
+	mode := flag.String("mode", "", "dump | extract | probe")
+	out := flag.String("out", "", "result file")
+	in := flag.String("in", "", "input file (probe jobs)")
+	tier := flag.String("tier", "quick", "quick | thorough")
+	clusters := flag.String("clusters", ",c1", "comma separated cluster modes ('' = single node)")
+	only := flag.String("only", "", "substring filter on endpoint names")
+	flag.Parse()
+	switch *mode {
+	case "dump":
+		dump(*only, strings.Split(*clusters, ","))
+	case "extract":
+		runExtract(*out, *tier, strings.Split(*clusters, ","), *only)
+	case "probe":
+		runProbe(*in, *out)
+	default:
+		fatal("unknown mode %q", *mode)
 	}
 }
